@@ -4,6 +4,7 @@ import math
 
 from .. import core
 from .. import annot
+from .c19_reach import Reach
 
 PID = 'C19'
 DRV = 'drv_c19'
@@ -60,6 +61,8 @@ def gen_case(rng, max_len, intervals=False, p=None):
     if rng.random() < 0.3:
         # repeated residues carrying different modifications
         a._sequence = ''.join(rng.choice(a._sequence[:2]) for _ in a._sequence)
+    if rng.random() < 0.08:
+        a._charge = 0          # written as /0 since fix 0046c62
     return with_history(a, rng)
 
 
@@ -141,12 +144,34 @@ def run(chk):
         'modelled: ProFormaAnnotation.permutations/product/combinations/combinations_with_replacement, split, slice(i,i+1), '
         'pop_mods + internal restore, own itertools enumerations; the effect of parse(start + components + end) is modelled on '
         'annotations (assemble) - the ProForma parser/serializer themselves are outside this model (C01)',
-        'correspondence domain (expandDomain): present mod lists non-empty, multipliers >= 1, charge != 0, adducts only with a charge',
+        'correspondence domain (expandDomain): present mod lists non-empty, multipliers >= 1, adducts only with a charge',
     ]
     chk.rule = ('generated annotations of length 1..6 (all modification kinds except intervals) x size in None,1..n,n+1,n+3 x '
                 'four operations, always on copies; non-trivial = at least 2 results and at least one residue modification or global; '
                 'distinct = distinct protocol line')
     limit = 800 if tier == 'quick' else 8000
+    A = pp.ProFormaAnnotation
+    from peptacular.sequence import combinatoric as cb
+    INPLACE = 'slice(inplace=True) is not used by split()/the expansions'
+    IV = 'interval clipping of slice belongs to C07/C11; C19 excludes intervals (sliceOne does not model them)'
+    NONE = 'split() always passes both bounds'
+    reach = Reach([A.permutations, A.product, A.combinations, A.combinations_with_replacement, A.split, A.slice, A.pop_mods,
+                   A.serialize_start, A.serialize_end, cb.permutations, cb.product, cb.combinations,
+                   cb.combinations_with_replacement],
+                  outside={'ProFormaAnnotation.slice': {
+                      'start = 0': NONE, 'stop = len(self.sequence)': NONE,
+                      'if inplace is True:': INPLACE, 'self._sequence = new_sequence': INPLACE, 'return None': INPLACE,
+                      'self._nterm_mods = None': INPLACE, 'self._cterm_mods = None': INPLACE, 'if start > 0:': INPLACE,
+                      'if stop < len(self.sequence):  # compare with the original length, before the sequence is replaced': INPLACE,
+                      'self._internal_mods = new_internal_mods  # already a copy': INPLACE,
+                      'self._intervals = new_intervals  # already a copy': INPLACE,
+                      'new_intervals = []': IV, 'for interval in self.intervals:': IV,
+                      'if interval.start < stop and interval.end > start:': IV,
+                      'new_start = max(0, interval.start - start)': IV, 'new_end = max(0, interval.end - start)': IV,
+                      'new_intervals.append(Interval(start=new_start,': IV, 'end=new_end,': IV,
+                      'ambiguous=interval.ambiguous,': IV, 'mods=copy.deepcopy(interval.mods)))': IV,
+                      'if len(new_intervals) == 0:': IV, 'new_intervals = None': IV}})
+    reach.__enter__()
 
     # ------------------------------------------------------------------ corpus (replayed first)
     corpus = []
@@ -333,8 +358,14 @@ def run(chk):
     chk.oracle('expansion_property', ocases, o_expand,
                nontrivial_fn=lambda c: '|D' in c[1] or '|L' in c[1], key_fn=lambda c: line(c))
 
+    reach.__exit__()
+    rep = reach.report()
+    chk.notes.append({'reach_of_modelled_functions': rep})
+    if rep.get('available'):
+        chk.count('modelled_lines_total', rep['lines_of_modelled_functions'])
+        chk.count('modelled_lines_executed', rep['lines_executed'])
     if tier == 'thorough':
-        chk.leanchecker(['PeptVerif.Props.C19', 'PeptVerif.Model.Combinatoric'])
+        chk.leanchecker(['PeptVerif.Props.C19', 'PeptVerif.Model.Combinatoric', 'PeptVerif.Model.CombinatoricText'])
     return chk.finish(classify)
 
 
